@@ -140,7 +140,10 @@ def printListPinned (isPrint : Nat → Bool) (ms : List Matcher) : Str :=
 /-! ### `Matcher.Matches`, `Matchers.Matches`, `MatcherSet.Matches`
 
   `fullMatch v s`: the regular expression `v` matches the WHOLE of `s` (the
-  meaning of the `^(?:v)$` wrapping `NewMatcher` applies). -/
+  meaning of the `^(?:v)$` wrapping `NewMatcher` applies; AM.Model.MatcherRegex
+  gives it a semantics for a fragment of the syntax — `FullMatch`, decided by
+  `matchRe` — and AM.Props.C16 `wrapped_search_iff_full_match` shows that the
+  wrapping followed by `MatchString` is exactly that). -/
 
 abbrev LabelSet := List (Str × Str)
 
